@@ -53,13 +53,13 @@ add("f_null_paths", FFI, "verif_kani", ["C20"], cap_s=180, group="ffi_l0",
 
 
 for m, tier, cap in ((1, "quick", 600), (2, "quick", 900)):
-    add("f_on_events_m%d" % m, FFI, "verif_kani", ["C20"], tier=tier, cap_s=cap, mem_gb=16, group="f_on_events_m%d" % m, cls="B",
+    add("f_on_events_m%d" % m, FFI, "verif_kani", ["C20", "C04"] if m == 1 else ["C20"], tier=tier, cap_s=cap, mem_gb=16, group="f_on_events_m%d" % m, cls="B",
         encodes=["maybenot_on_events", "MaybenotFramework::on_events", "convert_event", "convert_action",
                  "Framework::trigger_events / process_event (real)"],
         bounds="%d machines, one TunnelRecv event with any id, every machine step returns ANY well-formed action; output buffer of "
                "exactly num_machines slots between two canaries; Instant::now stubbed to any instant" % m)
 
-add("f_on_events_empty", FFI, "verif_kani", ["C20"], cap_s=600, mem_gb=16, group="f_on_events_empty", cls="B",
+add("f_on_events_empty", FFI, "verif_kani", ["C20", "C04"], cap_s=600, mem_gb=16, group="f_on_events_empty", cls="B",
     encodes=["maybenot_on_events", "MaybenotFramework::on_events", "Framework::trigger_events (real)"],
     bounds="one machine, an EMPTY batch, stale count and buffer in the caller's variables")
 for nm, tier, what in (("m1_bb", "thorough", "1 machine, BlockingBegin with any id (a global event whatever id it carries)"),
@@ -107,7 +107,7 @@ add("k_validate_machine", MB, "machine::verif_kani", ["C12"], cap_s=300, group="
 
 
 for k, tier in ((1, "quick"), (2, "quick")):
-    add("k_validate_row_k%d" % k, MB, "state::verif_kani", ["C12"], tier=tier, cap_s=900, mem_gb=16, group="c12_row_k%d" % k,
+    add("k_validate_row_k%d" % k, MB, "state::verif_kani", ["C12", "C01"], owner="C12", tier=tier, cap_s=900, mem_gb=16, group="c12_row_k%d" % k,
         encodes=["State::validate (row judgement)"],
         bounds="one row of K=%d alternatives: targets any usize (pairwise distinct by assumption), probabilities any f32 bit "
                "pattern, 1..=STATE_MAX states; HashSet::insert stubbed to a no-op, RandomState::new to fixed keys" % k)
@@ -143,6 +143,11 @@ add("k_below_blocking_small", MB, FW, ["C03", "C07", "C05"], cap_s=900, mem_gb=1
            "ongoing 0..=2 us, elapsed since start 0..=3 us (36 combinations; virtual clock, backwards steps = 0 elapsed)")
 add("k_below_other", MB, FW, ["C07", "C04", "C05"], cap_s=120, group="fw_l0_other", owner="C01",
     encodes=["Framework::below_action_limits"], bounds="timer / cancel / no action, any limit")
+
+add("k_framework_new", MB, FW, ["C12", "C01", "C07"], cap_s=900, mem_gb=16, group="k_framework_new", owner="C01", cls="B",
+    encodes=["Framework::new"],
+    bounds="two one-state machines with any first-state action kind (with / without limit), fractions any f64 bit pattern, any start "
+           "time, any random tape; Machine::validate replaced by a ghost that may reject either machine, sample_limit by its contract")
 
 L1_PROPS = ["C01", "C02", "C03", "C04", "C05", "C07", "C08", "C09", "C10"]
 L1_STUBS = ("leaf contracts proved by the L0 kernels: sample_timeout/duration/limit/value, below_action_limits, "
@@ -217,6 +222,8 @@ add("s_peek_internal", SIM, SK, ["C18"], tier="thorough", cap_s=900, mem_gb=12, 
     encodes=["queue_peek::peek_scheduled_internal_timer"], bounds="2 + 1 internal-timer slots, any instants")
 add("s_peek_action_q", SIM, SK, ["C17"], cap_s=600, mem_gb=12, group="s_peek_aq", owner="C19",
     encodes=["queue_peek::peek_scheduled_action"], bounds="1 + 1 pending-action slots, any instants")
+add("s_peek_action_q2", SIM, SK, ["C17"], cap_s=900, mem_gb=12, group="s_peek_aq2", owner="C19",
+    encodes=["queue_peek::peek_scheduled_action"], bounds="2 pending-action slots on one side, any instants")
 add("s_peek_internal_q", SIM, SK, ["C18"], cap_s=600, mem_gb=12, group="s_peek_iq", owner="C19",
     encodes=["queue_peek::peek_scheduled_internal_timer"], bounds="1 + 1 internal-timer slots, any instants")
 add("s_peek_blocked", SIM, SK, ["C16"], cap_s=300, mem_gb=12, group="s_peek", owner="C19",
